@@ -122,6 +122,7 @@ MUTATIONS = [
     ("c10-revert-failed-beside-done", "run.py", "        if not self.donepath.is_file():\n            # (no failure marker for a task that has already succeeded)\n            self.failedpath.write_text(str(code))", "        self.failedpath.write_text(str(code))", ["C10"]),
     ("c04-copy-dependencies-drops-task", "core/objects.py", "            assert self.__xpm__.task is None\n            self.__xpm__.task = other.__xpm__.task", "            assert self.__xpm__.task is None", ["C04"]),
     ("c09-revert-on-deleted-lock", "tokens.py", "        with self.lock:\n            fc = self.cache.pop(name, None)\n            if fc is not None:", "        fc = None\n        if name in self.cache and (__import__('time').sleep(0) or True):\n            fc = self.cache.pop(name, None)\n            if fc is not None:", ["C09"]),
+    ("c12-revert-enum-serialization-order", "core/objects.py", "        elif isinstance(value, Enum):\n            # (before int/str: the members of an IntEnum or of a str-based\n            # enumeration are ints/strings too)\n            return {", "        elif isinstance(value, Enum) and not isinstance(value, (int, str)):\n            return {", ["C12"]),
     # C20
     ("c20-deprecate-keeps-id", "core/types.py", "        self.identifier = parent.identifier\n        self._deprecated = True", "        self._deprecated = True", ["C20"]),
     ("c20-cleanup-removes", "tools/jobs.py", "                        oldjobpath.rename(newjobpath)", "                        import shutil\n                        shutil.rmtree(oldjobpath)", ["C20"]),
